@@ -40,9 +40,9 @@ def _L():
 def _sig(case, iface, what):
     L = _L()
     if case["kind"] == "rto":
-        return "rto/%s/%s/nl=%d/n=%d/m=%s/noise=%s/prior=%s/mean=%s/model=%s" % (
+        return "rto/%s/%s/nl=%d/n=%d/m=%s/noise=%s/prior=%s/mean=%s/model=%s/A=%d" % (
             iface, what, case["nl"], case["n"], "+".join(str(v) for v in case["m"]),
-            "+".join(L.form_tag(s) for s in case["noise"]), L.form_tag(case["prior"]), case["mk"], case["mdl"])
+            "+".join(L.form_tag(s) for s in case["noise"]), L.form_tag(case["prior"]), case["mk"], case["mdl"], case["av"])
     s = case["scale_q"]
     return "ugla/%s/%s/loc=%s/scale=%s/n=%d/m=%d/noise=%s/beta=%d_%d/xk=%d" % (
         iface, what, case["lk"], ("%d" % s[0]) if s[1] == 1 else "%d_%d" % tuple(s), case["n"], case["m"],
@@ -93,7 +93,7 @@ def _check_affine(ctx, case, iface, draw, mu, cov, state_tag, offsets):
     if L.rel_err(off, mu) > RTOL:
         ctx.mismatch(_sig(case, iface, "offset"), case, "next state for perturbation 0 is not the mean of the Gaussian the step "
                      "must draw from (current state %s)" % state_tag, expected=mu, observed=off)
-    if L.rel_err(T @ T.T, cov) > RTOL:
+    if L.rel_err(T @ T.T, cov, scale=1e-3) > RTOL:
         ctx.mismatch(_sig(case, iface, "cov"), case, "linear part T of the step (next = offset + T e) does not reproduce the "
                      "covariance: T T^T != Lambda^-1 (current state %s)" % state_tag, expected=cov, observed=T @ T.T)
     offsets.append((state_tag, off, T))
@@ -242,7 +242,7 @@ def check_ugla(ctx, variants):
         C = T @ T.T
         chosen = None
         for v in variants:
-            if L.rel_err(C, L.qnp(v["LamInv_q"])) <= RTOL:
+            if L.rel_err(C, L.qnp(v["LamInv_q"]), scale=1e-3) <= RTOL:
                 chosen = v
                 break
         if chosen is None:
